@@ -7,7 +7,7 @@ for d in sorted(glob.glob('/verif/seeded/*/')):
     if not os.path.exists(mp): continue
     m = json.load(open(mp))
     runs = m['what_was_run']
-    k = [k for k in runs if k.startswith('all 20 checks')][0]
+    k = [k for k in runs if k.startswith('all 20 checks') or k.startswith('checks run')][0]
     caught = runs[k]['checks reporting VIOLATION']
     other = runs[k]['checks exiting 2']
     txt = m.get('what_it_needs_to_manifest', '').strip().splitlines()
